@@ -1002,6 +1002,10 @@ func (s *decScope) ruleDAHint(rule string) {
 						}
 					}
 					walk(phi)
+					if stripConv(mk.Len) == ssa.Value(phi) {
+						c.bad(rule, key, mk.Pos(), "a count clamped for pre-allocation is used as the LENGTH of the container (not only its capacity): the container holds at most the clamp's worth of elements and data beyond it is silently dropped")
+						continue
+					}
 					if badUse == nil {
 						c.ok(rule, key, mk.Pos(), "the clamped value is used only as an allocation size")
 					} else {
